@@ -270,7 +270,10 @@ func RunCheck(propFile, tier string, only string, verbose bool) int {
 			var rp *replayer
 			doneH := map[string]bool{}
 			for _, ob := range groupObs {
-				if ob.Kind != "reach" || ob.Result != Sat || ob.Model == nil || doneH[ob.Harness] {
+				if ob.Kind != "reach" || ob.Result != Sat || doneH[ob.Harness] {
+					continue
+				}
+				if ob.Model == nil && len(ob.Vars) > 0 {
 					continue
 				}
 				harnessClean := true
